@@ -49,7 +49,7 @@ GuardSame(r, m) == (r.ok <=> m.ok) /\ (IsSpreadReject(r) <=> IsSpreadReject(m))
 \* C08: the observed result of one Uint256 / Decimal256 operator is exactly Fixed's
 ArithModel(ev) ==
     LET a == ev.a  b == ev.b  c == ev.c IN
-    CASE ev.ty = "u256" /\ ev.op = "add"      -> U256Add(a, b)
+    CASE ev.ty = "u256" /\ ev.op \in {"add", "addassign"} -> U256Add(a, b)
       [] ev.ty = "u256" /\ ev.op = "sub"      -> U256Sub(a, b)
       [] ev.ty = "u256" /\ ev.op = "mul"      -> U256Mul(a, b)
       [] ev.ty = "u256" /\ ev.op = "muldec"   -> UintMulDec(a, b)
@@ -58,7 +58,7 @@ ArithModel(ev) ==
       [] ev.ty = "u256" /\ ev.op = "mulratio" -> MultiplyRatio(a, b, c)
       [] ev.ty = "u256" /\ ev.op = "to128"    -> To128(a)
       [] ev.ty = "u256" /\ ev.op = "from128"  -> To128(a)
-      [] ev.ty = "dec256" /\ ev.op = "add"    -> DecAdd(a, b)
+      [] ev.ty = "dec256" /\ ev.op \in {"add", "addassign"} -> DecAdd(a, b)
       [] ev.ty = "dec256" /\ ev.op = "sub"    -> DecSub(a, b)
       [] ev.ty = "dec256" /\ ev.op = "mul"    -> DecMul(a, b)
       [] ev.ty = "dec256" /\ ev.op = "div"    -> DecDiv(a, b)
@@ -71,7 +71,7 @@ ArithExact(ev) ==
     LET a == ev.a  b == ev.b  c == ev.c
         quo(n, d) == IF d = N0 THEN [def |-> FALSE, v |-> N0] ELSE Exactly(TRUE, NDiv(n, d))
     IN
-    CASE ev.op \in {"add"}                         -> Exactly(TRUE, NAdd(a, b))
+    CASE ev.op \in {"add", "addassign"}            -> Exactly(TRUE, NAdd(a, b))
       [] ev.op \in {"sub"}                         -> IF NLe(b, a) THEN Exactly(TRUE, NSub(a, b)) ELSE [def |-> FALSE, v |-> N0]
       [] ev.ty = "u256" /\ ev.op = "mul"           -> Exactly(TRUE, NMul(a, b))
       [] ev.op \in {"muldec", "decmul"}            -> Exactly(TRUE, NDiv(NMul(a, b), DFRAC))
